@@ -88,6 +88,21 @@ P.skipped_sources = []
 P.excluded = []
 
 
+def _int_minmax_guarded():
+    """does the tree under verification guard the ivec4/uvec4 min/max/clamp specialisations by GLM_ARCH_SSE41_BIT (proposed patch
+    C03_simd_int_minmax_needs_sse41)?  Then they compile at -msse2 (generic code) and their contracts are claimed there too"""
+    import os
+    try:
+        t = open(os.path.join(os.environ.get('VERIF_REPO', '/repo'), 'glm/detail/func_common_simd.inl')).read()
+    except OSError:
+        return False
+    return re.search(r'#\s*if GLM_ARCH & GLM_ARCH_SSE41_BIT[^\n]*\n\s*template<qualifier Q>\s*struct compute_min_vector<4, int', t) is not None
+
+
+if _int_minmax_guarded():
+    EXCLUDE = [e for e in EXCLUDE if 'does not compile at -msse2' not in e[2]]
+
+
 def excluded(fn, isa):
     for rx, irx, why in EXCLUDE:
         if re.search(rx, fn) and re.search(irx, isa):
@@ -174,7 +189,9 @@ for modname, rx, quick_isa, simd_rx in SOURCES:
                         '((%s >= 9.5367431640625e-07f && %s <= 1048576.0f) || (%s <= -9.5367431640625e-07f && %s >= -1048576.0f))' % (nm, nm, nm, nm)
                         for _, nm in s['ins']))]
                 c2 = Contract(c.fn, '[SIMD %s vs GLM_FORCE_PURE] %s' % (isa, c.real), requires=req, ensures=ens, build=sb.tag, rel=(pb.tag, [c.fn]), unwind=12,
-                              uf_float=('fmul', 'fdiv', 'fadd', 'fsub', 'sqrt'), timeout=300, tier=tier if isa in quick_isa else 'thorough')
+                              uf_float=('fmul', 'fdiv', 'fadd', 'fsub', 'sqrt'), timeout=300,
+                              # refract: four lanes of k through the uninterpreted products, > 300 s for the SAT race: thorough tier only
+                              tier=tier if (isa in quick_isa and 'refract' not in c.fn) else 'thorough')
                 P.contracts.append(c2)
                 P.reused.append((modname, c.fn + ' [rel]', isa))
             if why:
